@@ -3,10 +3,13 @@ package mon
 import (
 	"fmt"
 	"math/rand"
+	"net/url"
+	"strings"
 	"time"
 
 	"fverif/run"
 	"fverif/sim"
+	"fverif/world"
 )
 
 func init() {
@@ -223,6 +226,23 @@ func C08(c *run.Ctx) {
 					s.Refresh(t, "", nil)
 					s.Sweep("refresh-after-revoke")
 				}
+				continue
+			}
+			if r.Intn(6) == 0 && len(s.Toks) > 0 {
+				// never issued / mutated tokens: answered with success, nothing changes
+				t := pick(r, s.Toks)
+				unknown := pick(r, []string{"ory_at_never.issued", "garbage", mutateTok(t.Value, 0), mutateTok(t.Value, 2), "ory_rt_" + strings.Repeat("A", 43) + "." + strings.Repeat("B", 43)})
+				before := w.Store.Digest()
+				out := w.Revoke(url.Values{"token": {unknown}, "token_type_hint": {pick(r, []string{"", "access_token", "refresh_token"})}}, authFor(w, t.Grant.Client))
+				c.Case(fmt.Sprintf("revoke unknown-token err=%s status=%d", out.ErrName, out.Status))
+				c.Count("revocations_of_unknown_tokens", 1)
+				if out.Err != nil || out.Status != 200 {
+					c.Violate(run.Violation{Kind: "revoke-invalid-token-not-success", Key: "revoke-invalid-token-not-success unknown", Case: id, Detail: fmt.Sprintf("revoking a never-issued token answered %s / %d", out.ErrName, out.Status), History: s.Hist})
+				}
+				if d := world.DigestDiff(before, w.Store.Digest()); len(d) > 0 {
+					c.Violate(run.Violation{Kind: "revoke-changed-state", Key: "revoke-changed-state unknown-token", Case: id, Detail: strings.Join(d, "\n"), History: s.Hist})
+				}
+				s.Sweep("revoke-unknown")
 				continue
 			}
 			randStep(s, r, Weights{Authorize: 2, Redeem: 2, Refresh: 4, Revoke: 0, Other: 1, Advance: 2})
